@@ -15,6 +15,9 @@ def pycfunction_init(ex, st, params):
 
 
 def discharge(ex, ob, timeout_ms):
+    if ob.extra.get('force') == 'undecided':
+        ob.status = 'undecided'
+        return
     if ob.pc is None:
         ob.status = 'proved'
         ob.extra['by'] = 'simplifier'
